@@ -44,7 +44,7 @@ META = {
         "guarded by the link being implicit (token.info == 'auto' / no children). R3: the text of text, inline code, code "
         "block, fence, math and raw HTML leaves is exactly token.content (def-use chain without intervening call); the code "
         "highlighter appends every lexer fragment once; link destinations and image URIs derive from token.attrGet('href'/'src') "
-        "(backward data slice, followed into extracted helpers); the image `alt` is the text of the image token's children and every token type to which markdown-it's reference renderInlineAsText gives a contribution gives the same contribution in MyST's port; list start and code language derive from the token. Only normal control flow is judged (exception handlers are C01's subject). R4: current_node is rebound only by setup_render, the save/set/restore halves of "
+        "(backward data slice, followed into extracted helpers); the image `alt` is the text of the image token's children and every token type to which markdown-it's reference renderInlineAsText gives a contribution gives the same contribution in MyST's port; a destination that receives only one part of a split href (the path before '#') must have the remainder stored on the same node (download_reference excepted); the ordered-list start reaches the node for every legal start incl. 0 (decision table of the guards and of the stored value over N in {0, 2, 10}) and copy_attributes never tests the truthiness of a value it copies; code language derives from the token. R6: update_section_level_state records the section under its level, chooses the parent among exactly the strictly shallower levels, and removes exactly the deeper levels (decision table of the filter over key-level, or linear form of the range bounds). Only normal control flow is judged (exception handlers are C01's subject). R4: current_node is rebound only by setup_render, the save/set/restore halves of "
         "current_node_context and the final statement of the section branch of render_heading. R5: the Sphinx renderer "
         "overrides only link/math handling and adds no handler of its own; create_md_parser's renderer argument reaches "
         "only MarkdownIt(renderer_cls=...)."
@@ -1312,16 +1312,64 @@ def _content_sinks(fi: FunctionInfo, corpus: Corpus) -> list[tuple[ast.Call, ast
     return out
 
 
-def _reaches(e: ast.AST, fi: FunctionInfo, an: Nesting, is_source, depth: int = 0) -> bool:
+SPLITTERS = ("split", "rsplit", "partition", "rpartition")
+
+
+def _is_split_call(e: ast.AST) -> bool:
+    return isinstance(e, ast.Call) and isinstance(e.func, ast.Attribute) and e.func.attr in SPLITTERS
+
+
+def _split_bindings(fi: FunctionInfo) -> tuple[set[str], set[str]]:
+    """(part names, remainder names): ``a, *rest = x.split(sep)`` binds a *part* of x to ``a`` and the remainder to
+    ``rest``; ``a = x.split(sep)[0]`` binds a part with no remainder kept. Names computed from remainder names only
+    (``frag = rest[0] if rest else None``) count as remainder too."""
+    parts: set[str] = set()
+    rem: set[str] = set()
+    for n in fi.local_nodes():
+        if not isinstance(n, ast.Assign) or len(n.targets) != 1:
+            continue
+        t, v = n.targets[0], n.value
+        if isinstance(t, (ast.Tuple, ast.List)) and _is_split_call(v):
+            names = [(x.value.id if isinstance(x, ast.Starred) and isinstance(x.value, ast.Name) else x.id if isinstance(x, ast.Name) else None) for x in t.elts]
+            if names and names[0]:
+                parts.add(names[0])
+                rem.update(x for x in names[1:] if x)
+        elif isinstance(t, ast.Name) and isinstance(v, ast.Subscript) and _is_split_call(v.value) and isinstance(v.slice, ast.Constant):
+            parts.add(t.id)
+    changed = True
+    while changed:
+        changed = False
+        for n in fi.local_nodes():
+            if isinstance(n, ast.Assign) and len(n.targets) == 1 and isinstance(n.targets[0], ast.Name) and n.targets[0].id not in rem | parts:
+                used = {x.id for x in ast.walk(n.value) if isinstance(x, ast.Name)}
+                if used & rem and not (used - rem - {"None", "True", "False", "len"}):
+                    rem.add(n.targets[0].id)
+                    changed = True
+    return parts, rem
+
+
+def _walk_lossless(e: ast.AST):
+    """ast.walk that does not descend into ``<x>.split(..)[i]`` (a part of x, not x)."""
+    stack = [e]
+    while stack:
+        n = stack.pop()
+        if isinstance(n, ast.Subscript) and _is_split_call(n.value) and isinstance(n.slice, ast.Constant):
+            continue
+        yield n
+        stack.extend(ast.iter_child_nodes(n))
+
+
+def _reaches(e: ast.AST, fi: FunctionInfo, an: Nesting, is_source, depth: int = 0, lossless: bool = False) -> bool:
     """Backward data slice of ``e`` through local assignments (and, for parameters, the self-call sites)
-    reaches an expression satisfying ``is_source``."""
-    seen: set[str] = set()
+    reaches an expression satisfying ``is_source``. With ``lossless`` the slice may not pass through a name or
+    expression that holds only one part of a split string."""
+    seen: set[str] = set(_split_bindings(fi)[0]) if lossless else set()
     work = [e]
     toks = set(_tok_params(fi))
     unknown = None
     while work:
         x = work.pop()
-        for n in ast.walk(x):
+        for n in (_walk_lossless(x) if lossless else ast.walk(x)):
             if is_source(n, fi):
                 return True
             if isinstance(n, ast.Call) and depth < 3 and any(isinstance(a, ast.Name) and a.id in toks for a in n.args):
@@ -1329,7 +1377,7 @@ def _reaches(e: ast.AST, fi: FunctionInfo, an: Nesting, is_source, depth: int = 
                 m = an.resolve_callee(n, fi)
                 if m is not None and not m.is_lambda and _tok_params(m):
                     for r in m.local_nodes():
-                        if isinstance(r, ast.Return) and r.value is not None and _reaches(r.value, m, an, is_source, depth + 1):
+                        if isinstance(r, ast.Return) and r.value is not None and _reaches(r.value, m, an, is_source, depth + 1, lossless):
                             return True
                 elif m is None and not (isinstance(n.func, ast.Attribute) and isinstance(n.func.value, ast.Name) and n.func.value.id in toks) and (dotted(n.func) or "") not in BENIGN_CALLEES:
                     unknown = n
@@ -1346,7 +1394,7 @@ def _reaches(e: ast.AST, fi: FunctionInfo, an: Nesting, is_source, depth: int = 
                             if isinstance(c, ast.Call) and _is_self_call(c, fi.name):
                                 idx = ps.index(n.id) - 1
                                 a = c.args[idx] if 0 <= idx < len(c.args) else kwarg(c, n.id)
-                                if a is not None and _reaches(a, g, an, is_source, depth + 1):
+                                if a is not None and _reaches(a, g, an, is_source, depth + 1, lossless):
                                     return True
     if unknown is not None:
         raise Unsupported(f"{fi.qualname}: the token is handed to `{short(unknown, 50)}`, whose result is not understood")
@@ -1381,6 +1429,9 @@ def _field_source(field: str):
 
 DEST_KEYS = {"refuri": "href", "refname": "href", "uri": "src"}
 DEST_KWARGS = {"reftarget": "href"}
+PART_ONLY_OK = {
+    "sphinx.addnodes.download_reference": "a download points at a file; a '#fragment' has no meaning for it (Sphinx-specific node)",
+}
 DEST_EXEMPT = {
     "DocutilsRenderer.render_link_inventory": ("match", "the destination is the matched inventory entry's location (base_url + loc), selected by the href"),
 }
@@ -1465,6 +1516,185 @@ def _alt_text_agreement(corpus: Corpus, rep: Report, tt: TokenTypes) -> None:
         else:
             show = lambda c: {"none": "nothing", "content": "its content", "recurse": "the text of its children"}.get(c[0], repr(c[1]) if len(c) > 1 else c[0])  # noqa: E731
             rep.violation("C02.R3", k, mine.site(), f"a `{t}` token inside an image description contributes {show(got)} to `alt`, markdown-it's renderInlineAsText (which this method ports) contributes {show(want)}: the alt text is not carried over unchanged")
+
+
+class _NoValue(Exception):
+    pass
+
+
+def _ev(e: ast.AST, env: dict, fi: FunctionInfo | None = None, depth: int = 0):
+    """Evaluate a branch condition / small value expression under an abstract assignment ``env``
+    (names and un-parsed sub-expressions -> values). Raises _NoValue outside the subset."""
+    txt = unparse(e)
+    if txt in env:
+        return env[txt]
+    if isinstance(e, ast.Constant):
+        return e.value
+    if isinstance(e, ast.Name):
+        if fi is not None and depth < 6:
+            defs = _all_defs(fi, e.id)
+            if len(defs) == 1:
+                return _ev(defs[0], env, fi, depth + 1)
+        raise _NoValue(e.id)
+    if isinstance(e, ast.UnaryOp):
+        v = _ev(e.operand, env, fi, depth)
+        if isinstance(e.op, ast.Not):
+            return not v
+        if isinstance(e.op, ast.USub):
+            return -v
+        raise _NoValue(txt)
+    if isinstance(e, ast.BoolOp):
+        v = None
+        for x in e.values:
+            v = _ev(x, env, fi, depth)
+            if isinstance(e.op, ast.And) and not v:
+                return v
+            if isinstance(e.op, ast.Or) and v:
+                return v
+        return v
+    if isinstance(e, ast.BinOp) and isinstance(e.op, (ast.Add, ast.Sub)):
+        a, b = _ev(e.left, env, fi, depth), _ev(e.right, env, fi, depth)
+        try:
+            return a + b if isinstance(e.op, ast.Add) else a - b
+        except TypeError:
+            raise _NoValue(txt) from None
+    if isinstance(e, ast.IfExp):
+        return _ev(e.body if _ev(e.test, env, fi, depth) else e.orelse, env, fi, depth)
+    if isinstance(e, (ast.Tuple, ast.List, ast.Set)):
+        return tuple(_ev(x, env, fi, depth) for x in e.elts)
+    if isinstance(e, ast.Compare):
+        left = _ev(e.left, env, fi, depth)
+        for op, r in zip(e.ops, e.comparators):
+            right = _ev(r, env, fi, depth)
+            try:
+                ok = {
+                    ast.Eq: lambda a, b: a == b, ast.NotEq: lambda a, b: a != b, ast.Lt: lambda a, b: a < b, ast.LtE: lambda a, b: a <= b,
+                    ast.Gt: lambda a, b: a > b, ast.GtE: lambda a, b: a >= b, ast.Is: lambda a, b: a is b, ast.IsNot: lambda a, b: a is not b,
+                    ast.In: lambda a, b: a in b, ast.NotIn: lambda a, b: a not in b,
+                }[type(op)](left, right)
+            except TypeError:
+                raise _NoValue(txt) from None
+            if not ok:
+                return False
+            left = right
+        return True
+    if isinstance(e, ast.Call):
+        d = dotted(e.func) or ""
+        if d == "cast" and len(e.args) == 2:
+            return _ev(e.args[1], env, fi, depth)
+        if d in ("int", "str", "bool") and len(e.args) == 1 and not e.keywords:
+            v = _ev(e.args[0], env, fi, depth)
+            try:
+                return {"int": int, "str": str, "bool": bool}[d](v)
+            except (TypeError, ValueError):
+                raise _NoValue(txt) from None
+        if d == "isinstance":
+            raise _NoValue(txt)
+    raise _NoValue(txt)
+
+
+def _start_env(tok: str, v) -> dict:
+    attrs = {} if v is None else {"start": v}
+    return {
+        f"{tok}.attrGet('start')": v,
+        f"{tok}.attrs.get('start')": v,
+        f"{tok}.attrs.get('start', None)": v,
+        f"{tok}.attrs['start']": v,
+        f"{tok}.attrs": attrs,
+        f"{tok}.attrs.keys()": tuple(attrs),
+        "None": None,
+    }
+
+
+def _list_start(corpus: Corpus, rep: Report, an: Nesting) -> None:
+    """`N. item` with N != 1: the ordered_list token carries attrs['start'] = N (an int, 0 is legal); the
+    enumerated_list must get exactly that value - through copy_attributes, or through an explicit store whose
+    guards hold and whose value is N for every legal N (decision table over N in {0, 2, 10})."""
+    b = corpus.mod(BASE)
+    ol = b.func("DocutilsRenderer.render_ordered_list")
+    tok = _tok_param(ol)
+    k = f"{ol.fq}|start carried over"
+    ca = [c for c in ol.local_nodes() if isinstance(c, ast.Call) and _is_self_call(c, "copy_attributes")]
+    keys = set()
+    for c in ca:
+        kv = arg_or_kw(c, 2, "keys")
+        if isinstance(kv, (ast.Tuple, ast.List)):
+            keys |= {e.value for e in kv.elts if isinstance(e, ast.Constant)}
+    stores = []  # (stmt, value expr)
+    for n in sorted((n for n in ol.local_nodes() if hasattr(n, "lineno")), key=lambda n: (n.lineno, n.col_offset)):
+        if isinstance(n, ast.Assign) and len(n.targets) == 1 and isinstance(n.targets[0], ast.Subscript) and isinstance(n.targets[0].slice, ast.Constant) and n.targets[0].slice.value == "start":
+            stores.append((n, n.value))
+        elif isinstance(n, ast.Call) and _node_class(n, ol.module) == "docutils.nodes.enumerated_list" and kwarg(n, "start") is not None:
+            stores.append((n, kwarg(n, "start")))
+    if "start" in keys:
+        rep.ok("C02.R3", k, ol.site(), "copy_attributes(..., keys including 'start')")
+        return
+    if not stores:
+        rep.violation("C02.R3", k, ol.site(), "render_ordered_list no longer copies the `start` attribute: `3. x` is renumbered from 1")
+        return
+    cfg = get_cfg(ol)
+    for v in (0, 2, 10):
+        env = _start_env(tok, v)
+        delivered = None
+        why = ""
+        try:
+            for st, val in stores:
+                stmt = cfg.stmt_of(st)
+                held = True
+                for t, pol in cfg.guards(stmt):
+                    if bool(_ev(t, env, ol)) != pol:
+                        held = False
+                        why = f"guard `{'' if pol else 'not '}{short(t, 40)}` fails"
+                if held:
+                    got = _ev(val, env, ol)
+                    delivered = got
+                    if got == v or got == str(v):
+                        break
+                    why = f"`{short(val, 40)}` yields {got!r}"
+        except _NoValue as ex:
+            # outside the evaluated subset: fall back to the syntactic form of the same defect class
+            bad = None
+            for st, val in stores:
+                for t, pol in cfg.guards(cfg.stmt_of(st)):
+                    if isinstance(t, (ast.Name, ast.Call, ast.Subscript, ast.Attribute)) and not (isinstance(t, ast.Call) and (dotted(t.func) or "") in ("isinstance", "hasattr")) and _reaches(t, ol, an, _attr_source("start")):
+                        bad = t
+            if bad is not None:
+                rep.violation("C02.R3", k, ol.site(), f"`start` is stored only under the truthiness test `{short(bad, 40)}`: a list starting at 0 (`0. x`) loses its start number")
+            elif all(_reaches(val, ol, an, _attr_source("start")) for _st, val in stores):
+                rep.ok("C02.R3", k, ol.site(), f"explicit store deriving from the token's start attribute (guards not evaluated: {ex})")
+            else:
+                rep.violation("C02.R3", k, ol.site(), "the stored `start` does not derive from the token's `start` attribute")
+            return
+        if not (delivered == v or delivered == str(v)):
+            rep.violation("C02.R3", k, b.site(stores[0][0]), f"an ordered list starting at {v} (`{v}. x`) does not get start={v} in the doctree ({why or 'no store executes'}): the list numbering of the source is not carried over")
+            return
+    rep.ok("C02.R3", k, ol.site(), "explicit store: guards hold and value is N for N in {0, 2, 10}")
+
+
+def _generic_copy_not_truthy(corpus: Corpus, rep: Report) -> None:
+    """copy_attributes is the one place attribute values travel from token to node: the store of a value must
+    not sit under a truthiness test of that value (0 / '' are legal attribute values, e.g. start=0)."""
+    f = corpus.func(f"{RENDERER}.copy_attributes")
+    loops = [n for n in f.local_nodes() if isinstance(n, ast.For) and isinstance(n.iter, ast.Call) and isinstance(n.iter.func, ast.Attribute) and n.iter.func.attr == "items" and unparse(n.iter.func.value).endswith(".attrs")]
+    if len(loops) != 1 or not (isinstance(loops[0].target, ast.Tuple) and len(loops[0].target.elts) == 2 and all(isinstance(x, ast.Name) for x in loops[0].target.elts)):
+        raise Unsupported("copy_attributes: expected one `for key, value in token.attrs.items()` loop")
+    kvar, vvar = (x.id for x in loops[0].target.elts)
+    cfg = get_cfg(f)
+    stores = [n for n in ast.walk(loops[0]) if isinstance(n, ast.Assign) and len(n.targets) == 1 and isinstance(n.targets[0], ast.Subscript) and unparse(n.targets[0].slice) == kvar]
+    if not stores:
+        raise Unsupported("copy_attributes: no generic `node[key] = value` store found")
+    for i, st in enumerate(sorted(stores, key=lambda n: n.lineno)):
+        k = f"{f.fq}|generic attribute store{'' if i == 0 else f'#{i + 1}'} not under a truthiness test of the value"
+        bad = None
+        for t, pol in cfg.guards(st):
+            if isinstance(t, ast.Name) and t.id == vvar:
+                bad = (t, pol)
+        if not (isinstance(st.value, ast.Name) and st.value.id == vvar):
+            raise Unsupported(f"copy_attributes stores `{short(st.value, 30)}`")
+        if bad:
+            rep.violation("C02.R3", k, f.module.site(st), f"`{short(st, 40)}` only executes when `{vvar}` is truthy: attribute values 0 and '' (e.g. an ordered list starting at 0) are dropped instead of carried over")
+        else:
+            rep.ok("C02.R3", k, f.module.site(st), "guards test the key, not the value")
 
 
 @rule("C02.R3")
@@ -1614,7 +1844,26 @@ def r3_verbatim_leaves(corpus: Corpus, rep: Report, tier: str):
                         rep.assumed("C02.R3", k, fi.module.site(site_node), ex[1])
                         return
                 if _reaches(value, fi, an, _attr_source(attr)):
-                    rep.ok("C02.R3", k, fi.module.site(site_node), f"derives from token.attrGet({attr!r})")
+                    if _reaches(value, fi, an, _attr_source(attr), lossless=True):
+                        rep.ok("C02.R3", k, fi.module.site(site_node), f"derives from token.attrGet({attr!r})")
+                        return
+                    # only a part of the destination (e.g. the path before '#') arrives here: the rest must travel alongside
+                    _parts, rem = _split_bindings(fi)
+                    companions = []
+                    if isinstance(site_node, ast.Call):
+                        companions = [kw.arg for kw in site_node.keywords if kw.arg != key_name and kw.arg is not None and any(isinstance(x, ast.Name) and x.id in rem for x in ast.walk(kw.value))]
+                    else:
+                        recv = unparse(site_node.targets[0].value)
+                        for o in fi.local_nodes():
+                            if isinstance(o, ast.Assign) and o is not site_node and isinstance(o.targets[0], ast.Subscript) and unparse(o.targets[0].value) == recv and any(isinstance(x, ast.Name) and x.id in rem for x in ast.walk(o.value)):
+                                companions.append(unparse(o.targets[0].slice))
+                    ncls = _node_class(site_node, fi.module) if isinstance(site_node, ast.Call) else None
+                    if companions:
+                        rep.ok("C02.R3", k, fi.module.site(site_node), f"the part before the separator; the remainder is carried in {', '.join(companions)}")
+                    elif ncls in PART_ONLY_OK:
+                        rep.assumed("C02.R3", k, fi.module.site(site_node), PART_ONLY_OK[ncls])
+                    else:
+                        rep.violation("C02.R3", k, fi.module.site(site_node), f"`{key_name}` receives `{short(value, 40)}`, only the part of the token's `{attr}` before a split separator (e.g. '#'), and nothing on this node carries the remainder: the destination is truncated (`[t](a.b#frag)` loses `#frag`), and the back ends disagree on it")
                 else:
                     rep.violation("C02.R3", k, fi.module.site(site_node), f"`{key_name}` is set to `{short(value, 50)}`, which does not derive from the token's `{attr}` attribute: the link destination / image URI of the source is not carried over")
 
@@ -1647,20 +1896,8 @@ def r3_verbatim_leaves(corpus: Corpus, rep: Report, tier: str):
         else:
             rep.violation("C02.R3", k, b.site(alts[0]), f"`alt` is `{short(v, 50)}`, not the text of the image token's children")
     _alt_text_agreement(corpus, rep, tt=_token_types(corpus, rep))
-    ol = b.func("DocutilsRenderer.render_ordered_list")
-    k = f"{ol.fq}|start carried over"
-    ca = [c for c in ol.local_nodes() if isinstance(c, ast.Call) and _is_self_call(c, "copy_attributes")]
-    keys = set()
-    for c in ca:
-        kv = arg_or_kw(c, 2, "keys")
-        if isinstance(kv, (ast.Tuple, ast.List)):
-            keys |= {e.value for e in kv.elts if isinstance(e, ast.Constant)}
-    if "start" in keys:
-        rep.ok("C02.R3", k, ol.site(), "copy_attributes(..., keys including 'start')")
-    elif any(isinstance(n, ast.Assign) and isinstance(n.targets[0], ast.Subscript) and isinstance(n.targets[0].slice, ast.Constant) and n.targets[0].slice.value == "start" for n in ol.local_nodes()):
-        rep.ok("C02.R3", k, ol.site(), "explicit store of start")
-    else:
-        rep.violation("C02.R3", k, ol.site(), "render_ordered_list no longer copies the `start` attribute: `3. x` is renumbered from 1")
+    _list_start(corpus, rep, an)
+    _generic_copy_not_truthy(corpus, rep)
     for q, field in (("DocutilsRenderer.render_fence", "info"), ("DocutilsRenderer.render_code_block", "info")):
         f = b.func(q)
         for c in f.local_nodes():
@@ -1900,6 +2137,184 @@ def r5_backend_agreement(corpus: Corpus, rep: Report, tier: str):
     rep.expect_min("C02.R5", 9, "7 overrides + 3 MarkdownIt constructions on the pinned tree")
 
 
+# ---------------------------------------------------------------------------
+# R6 section-level state (which section later content is attached to)
+
+
+def _linear(e: ast.AST, level: str, mapexpr: str) -> tuple[int, int, int] | None:
+    """``a*level + b*max(map) + c`` for range bounds; None outside that form."""
+    if isinstance(e, ast.Constant) and isinstance(e.value, int):
+        return (0, 0, e.value)
+    if isinstance(e, ast.Name) and e.id == level:
+        return (1, 0, 0)
+    if isinstance(e, ast.Call) and dotted(e.func) == "max" and len(e.args) == 1 and not e.keywords:
+        a = unparse(e.args[0])
+        if a in (mapexpr, f"{mapexpr}.keys()", f"list({mapexpr})"):
+            return (0, 1, 0)
+    if isinstance(e, ast.BinOp) and isinstance(e.op, (ast.Add, ast.Sub)):
+        l, r = _linear(e.left, level, mapexpr), _linear(e.right, level, mapexpr)
+        if l is None or r is None:
+            return None
+        sg = 1 if isinstance(e.op, ast.Add) else -1
+        return (l[0] + sg * r[0], l[1] + sg * r[1], l[2] + sg * r[2])
+    return None
+
+
+def _keep_table(cond: ast.expr, kvar: str, level: str, keep_when: bool) -> str | None:
+    """Decision table of a filter over (key - level) in -3..3: entries must be kept iff key <= level.
+    ``keep_when``: the truth value of ``cond`` that keeps an entry. Returns a complaint or None."""
+    for lv in (1, 3):
+        for k in range(0, 8):
+            try:
+                val = bool(_ev(cond, {**{v: k for v in kvar.split("|")}, level: lv}))
+            except _NoValue as ex:
+                raise Unsupported(f"level-state filter `{short(cond, 50)}` not evaluable ({ex})") from None
+            kept = val == keep_when
+            if kept != (k <= lv):
+                if kept:
+                    return f"the entry of level {k} survives a heading of level {lv}: a later heading can be attached beneath that already closed, deeper section, so its text precedes text that comes before it in the source"
+                return f"the entry of level {k} is removed by a heading of level {lv}: the open section of that level is forgotten and later sub-headings are attached to an outer section"
+    return None
+
+
+@rule("C02.R6")
+def r6_section_level_state(corpus: Corpus, rep: Report, tier: str):
+    rep.rule("C02.R6", "after a heading of level L the level->section map holds L and nothing deeper; the parent is the closest strictly shallower level (filter/range decision tables)")
+    f = corpus.func(f"{RENDERER}.update_section_level_state")
+    rep.saw_function(f.fq)
+    ps = f.params
+    if len(ps) < 3:
+        raise Unsupported("update_section_level_state signature changed")
+    p_sec, p_lvl = ps[1], ps[2]
+    cfg = get_cfg(f)
+    # the map: the attribute subscripted with the level parameter in a store of the section parameter
+    store = None
+    for n in f.local_nodes():
+        if isinstance(n, ast.Assign) and len(n.targets) == 1 and isinstance(n.targets[0], ast.Subscript) and unparse(n.targets[0].slice) == p_lvl and isinstance(n.value, ast.Name) and n.value.id == p_sec:
+            store = n
+    k = f"{f.fq}|map[level] = section"
+    if store is None:
+        rep.violation("C02.R6", k, f.site(), "the new section is no longer recorded under its level: the next deeper heading is attached to an outer section")
+        return
+    mapexpr = unparse(store.targets[0].value)
+    if not cfg.postdominates(store, cfg.succ["ENTRY"][0]) and store is not cfg.succ["ENTRY"][0]:
+        rep.violation("C02.R6", k, f.module.site(store), "the new section is recorded under its level only on some paths")
+    else:
+        rep.ok("C02.R6", k, f.module.site(store), mapexpr)
+    # (1) parent selection: max over the keys strictly shallower than the level
+    k = f"{f.fq}|parent = deepest level strictly above"
+    sel = [n for n in f.local_nodes() if isinstance(n, ast.Call) and dotted(n.func) == "max" and n.args and isinstance(n.args[0], (ast.GeneratorExp, ast.ListComp, ast.SetComp))]
+    sel = [n for n in sel if unparse(n.args[0].generators[0].iter) in (mapexpr, f"{mapexpr}.keys()")]
+    if len(sel) != 1:
+        raise Unsupported(f"update_section_level_state: expected one max(<key> for <key> in {mapexpr} if ...), found {len(sel)}")
+    comp = sel[0].args[0]
+    gen = comp.generators[0]
+    if not (isinstance(gen.target, ast.Name) and unparse(comp.elt) == gen.target.id and len(gen.ifs) == 1):
+        raise Unsupported("parent selection comprehension not understood")
+    bad = None
+    for lv in (1, 3):
+        for kk in range(0, 7):
+            try:
+                val = bool(_ev(gen.ifs[0], {gen.target.id: kk, p_lvl: lv}))
+            except _NoValue as ex:
+                raise Unsupported(f"parent filter not evaluable ({ex})") from None
+            if val != (kk < lv):
+                bad = f"level {kk} is {'a' if val else 'not a'} parent candidate for a heading of level {lv}"
+    if bad:
+        rep.violation("C02.R6", k, f.module.site(sel[0]), f"{bad}: the section is nested under a sibling/deeper section or under a too shallow one")
+    else:
+        rep.ok("C02.R6", k, f.module.site(sel[0]), "candidates are exactly the levels < level; max picks the closest")
+    # (2) pruning of deeper levels
+    k = f"{f.fq}|levels deeper than the heading are removed"
+    prunes = []
+    for n in sorted((n for n in f.local_nodes() if isinstance(n, ast.stmt)), key=lambda n: n.lineno):
+        if isinstance(n, ast.Assign) and len(n.targets) == 1 and unparse(n.targets[0]) == mapexpr and isinstance(n.value, ast.DictComp):
+            prunes.append(("rebuild", n))
+        elif isinstance(n, ast.For) and any(
+            (isinstance(c, ast.Call) and isinstance(c.func, ast.Attribute) and c.func.attr == "pop" and unparse(c.func.value) == mapexpr)
+            or (isinstance(c, ast.Delete) and any(isinstance(t, ast.Subscript) and unparse(t.value) == mapexpr for t in c.targets))
+            for c in ast.walk(n)
+        ):
+            prunes.append(("loop", n))
+    if not prunes:
+        rep.violation("C02.R6", k, f.site(), "levels deeper than the new heading are never removed from the level map: after `# A / ## B / # C / ### D` the stale section B becomes the parent of D, whose text then precedes C in the doctree")
+        return
+    if len(prunes) > 1:
+        raise Unsupported("update_section_level_state prunes the level map more than once")
+    kind, st = prunes[0]
+    first = cfg.succ["ENTRY"][0]
+    if st is not first and not cfg.postdominates(st, first):
+        rep.violation("C02.R6", k, f.module.site(st), "deeper levels are removed only on some paths through update_section_level_state")
+        return
+    complaint = None
+    if kind == "rebuild":
+        comp = st.value
+        gen = comp.generators[0]
+        it = unparse(gen.iter)
+        if len(comp.generators) != 1 or len(gen.ifs) != 1:
+            raise Unsupported("level map rebuild: expected one generator with one filter")
+        if it == f"{mapexpr}.items()" and isinstance(gen.target, ast.Tuple) and len(gen.target.elts) == 2 and all(isinstance(x, ast.Name) for x in gen.target.elts):
+            kvar, vvar = gen.target.elts[0].id, gen.target.elts[1].id
+            ident = unparse(comp.key) == kvar and unparse(comp.value) == vvar
+        elif it in (mapexpr, f"{mapexpr}.keys()") and isinstance(gen.target, ast.Name):
+            kvar = gen.target.id
+            ident = unparse(comp.key) == kvar and unparse(comp.value) == f"{mapexpr}[{kvar}]"
+        else:
+            raise Unsupported(f"level map rebuild iterates `{it}`")
+        if not ident:
+            complaint = "the rebuilt map does not keep each kept level with its own section"
+        else:
+            complaint = _keep_table(gen.ifs[0], kvar, p_lvl, keep_when=True)
+    else:
+        loop = st
+        if not isinstance(loop.target, ast.Name):
+            raise Unsupported("prune loop target")
+        kvar = loop.target.id
+        inner_ifs = [n for n in loop.body if isinstance(n, ast.If)]
+        it = loop.iter
+        if isinstance(it, ast.Call) and dotted(it.func) == "range" and len(it.args) == 2 and not inner_ifs:
+            lo, hi = _linear(it.args[0], p_lvl, mapexpr), _linear(it.args[1], p_lvl, mapexpr)
+            if lo is None or hi is None:
+                raise Unsupported(f"prune range bounds `{short(it, 50)}` not linear in level / max({mapexpr})")
+            if lo != (1, 0, 1):
+                complaint = f"the removal starts at `{short(it.args[0], 30)}`, not at level + 1"
+            elif hi[0] == 0 and hi[1] == 1:
+                if hi[2] < 1:
+                    complaint = f"range(..., {short(it.args[1], 40)}) excludes the deepest recorded level (range's upper bound is exclusive): that stale section survives and a later heading can be attached beneath it, so its text precedes text that comes before it in the source"
+            elif hi[0] == 0 and hi[1] == 0:
+                raise Unsupported(f"prune range has the constant upper bound {hi[2]}; heading levels are unbounded (heading-offset)")
+            else:
+                complaint = f"the removal stops at `{short(it.args[1], 30)}`, which does not cover all deeper levels"
+        else:
+            # for k in list(map) / [k for k in map if cond]: (if cond:) del map[k]
+            conds: list[tuple[ast.expr, bool]] = []
+            src_it = it
+            if isinstance(src_it, ast.Call) and dotted(src_it.func) in ("list", "tuple", "sorted") and len(src_it.args) == 1:
+                src_it = src_it.args[0]
+            if isinstance(src_it, ast.ListComp) and len(src_it.generators) == 1 and isinstance(src_it.generators[0].target, ast.Name) and unparse(src_it.elt) == src_it.generators[0].target.id and unparse(src_it.generators[0].iter) in (mapexpr, f"{mapexpr}.keys()"):
+                g = src_it.generators[0]
+                kvar = f"{kvar}|{g.target.id}"  # the comprehension variable holds the same key
+                conds += [(c, True) for c in g.ifs]
+            elif unparse(src_it) not in (mapexpr, f"{mapexpr}.keys()"):
+                raise Unsupported(f"prune loop iterates `{short(it, 50)}`")
+            body = loop.body
+            if len(body) == 1 and isinstance(body[0], ast.If) and not body[0].orelse:
+                conds.append((body[0].test, True))
+                body = body[0].body
+            if len(body) != 1:
+                raise Unsupported("prune loop body not understood")
+            if not conds:
+                complaint = "every level is removed"
+            else:
+                test = conds[0][0] if len(conds) == 1 else ast.BoolOp(op=ast.And(), values=[c for c, _ in conds])
+                complaint = _keep_table(test, kvar, p_lvl, keep_when=False)
+    if complaint:
+        rep.violation("C02.R6", k, f.module.site(st), complaint)
+    else:
+        rep.ok("C02.R6", k, f.module.site(st), "kept iff level' <= level" if kind == "rebuild" else "removes exactly the deeper levels")
+    rep.expect_min("C02.R6", 3, "store, parent selection, pruning")
+
+
 def enclosing_expr(n: ast.AST) -> ast.AST:
     cur = n
     for a in ancestors(n):
@@ -1911,7 +2326,7 @@ def enclosing_expr(n: ast.AST) -> ast.AST:
     return cur
 
 
-RULES = [r1_handler_exhaustiveness, r2_nesting_discipline, r3_verbatim_leaves, r4_current_node_writers, r5_backend_agreement]
+RULES = [r1_handler_exhaustiveness, r2_nesting_discipline, r3_verbatim_leaves, r4_current_node_writers, r5_backend_agreement, r6_section_level_state]
 
 
 def _seg(m: Module, node: ast.AST) -> str:
@@ -2033,6 +2448,53 @@ def mutants(corpus: Corpus):
     f = sph.func("SphinxRenderer.render_link_path")
     kw = find_node(f, lambda n: isinstance(n, ast.keyword) and n.arg == "reftarget")
     add("c02-sphinx-reftarget-constant", "C02.R3", sph, kw.value if kw else None, '""', "render_link_path|reftarget")
+
+    # revert of dd4e50e (softbreak kept in alt text)
+    f = base.func(R + "renderInlineAsText")
+    br = find_node(f, lambda n: isinstance(n, ast.If) and isinstance(n.test, ast.Compare) and any(isinstance(c, ast.Constant) and c.value == "softbreak" for c in n.test.comparators))
+    if br is not None:
+        lines = base.src.splitlines(keepends=True)
+        out.append(Mutant("c02-revert-alt-softbreak-fix", "C02.R3", base.rel, "".join(lines[: br.lineno - 1] + lines[br.body[-1].end_lineno :]), expect="`softbreak` tokens", canary=False))
+    else:
+        out.append(("c02-revert-alt-softbreak-fix", "softbreak branch not found"))
+    # class: attribute value stored under a truthiness test / with an `or` default where 0 is legal
+    f = base.func(R + "render_ordered_list")
+    ca = find_node(f, lambda n: isinstance(n, ast.Expr) and isinstance(n.value, ast.Call) and _is_self_call(n.value, "copy_attributes"))
+    if ca is not None:
+        ind = indent_of(f, ca)
+        tail = f'\n{ind}self.copy_attributes(token, list_node, keys=("class", "id"))'
+        add("c02-list-start-under-truthiness", "C02.R3", base, ca, f'start = token.attrGet("start")\n{ind}if start:\n{ind}    list_node["start"] = start' + tail, "starting at 0")
+        add("c02-list-start-or-default", "C02.R3", base, ca, f'if "start" in token.attrs:\n{ind}    list_node["start"] = token.attrs["start"] or 1' + tail, "starting at 0")
+    f = base.func(R + "copy_attributes")
+    guard = find_node(f, lambda n: isinstance(n, ast.If) and unparse(n.test) == "key not in keys")
+    if guard is not None:
+        ind = indent_of(f, guard)
+        add("c02-copy-attributes-skips-falsy", "C02.R3", base, guard, _seg(base, guard) + f"\n{ind}if not value:\n{ind}    continue", "truthy")
+    # class: only a part of a split destination is stored
+    f = sph.func("SphinxRenderer.render_link_unknown")
+    kws = sorted((n for n in walk_local(f.node) if isinstance(n, ast.keyword) and n.arg == "reftarget" and unparse(n.value) == "destination"), key=lambda n: n.value.lineno)
+    add("c02-sphinx-reftarget-loses-fragment", "C02.R3", sph, kws[-1].value if kws else None, "path_dest", "truncated")
+    f = sph.func("SphinxRenderer.render_link_project")
+    kw = find_node(f, lambda n: isinstance(n, ast.keyword) and n.arg == "reftargetid")
+    add("c02-sphinx-project-fragment-not-carried", "C02.R3", sph, kw.value if kw else None, "None", "truncated")
+    f = base.func(R + "render_link_unknown")
+    st = find_node(f, lambda n: isinstance(n, ast.Assign) and unparse(n.targets[0]) == "ref_node['refname']")
+    add("c02-refname-loses-fragment", "C02.R3", base, st.value if st else None, 'cast(str, token.attrGet("href") or "").split("#")[0]', "truncated")
+
+    # ---- R6
+    f = base.func(R + "update_section_level_state")
+    rebuild = find_node(f, lambda n: isinstance(n, ast.Assign) and isinstance(n.value, ast.DictComp))
+    if rebuild is not None:
+        ind = indent_of(f, rebuild)
+        mexp = unparse(rebuild.targets[0])
+        add("c02-level-prune-excludes-deepest", "C02.R6", base, rebuild, f"for section_level in range(level + 1, max({mexp})):\n{ind}    {mexp}.pop(section_level, None)", "excludes the deepest")
+        add("c02-level-prune-dropped", "C02.R6", base, rebuild, "pass", "never removed")
+        add("c02-level-prune-drops-own-level", "C02.R6", base, rebuild.value.generators[0].ifs[0], "section_level < level", "is removed by a heading")
+        add("c02-level-prune-keeps-one-deeper", "C02.R6", base, rebuild.value.generators[0].ifs[0], "section_level <= level + 1", "survives a heading")
+    else:
+        out.append(("c02-level-prune-*", "dict-comprehension rebuild not found"))
+    sel = find_node(f, lambda n: isinstance(n, ast.Compare) and unparse(n) == "level > section_level")
+    add("c02-parent-includes-same-level", "C02.R6", base, sel, "level >= section_level", "parent candidate")
 
     # ---- R4
     f = base.func(R + "render_paragraph")
